@@ -818,4 +818,99 @@ example :
 example : tveRun [2,3,2,2] [⟨[0,1],[1,2],-3/2⟩, ⟨[1],[2],2⟩, ⟨[0,1],[1,2],1/4⟩, ⟨[3],[0],-1/2⟩, ⟨[0,1,3],[0,0,1],5/4⟩]
     = ([0,2,0,1], 2) := by decide +kernel
 
+/-! ## table-level VariableElimination (`VETable.lean`): the data structure the code manipulates
+
+`graphVal` reads the graph the way `removeFactor` does (per node: `lower_bound` by partial index, equality test,
+absent = contributes nothing).  First: `UpdateGraphImpl<VariableElimination, rules>` (sorted insertion, accumulate on
+collision) represents the rule set exactly. -/
+
+def valOf : Option TRule → Rat
+  | some r => r.value
+  | none => 0
+
+def nodeVal (A a : List Nat) (nd : TNode) : Rat := valOf (lookup (toIndexPartial nd.keys A a) nd.rules)
+
+def graphVal (A a : List Nat) : List TNode → Rat
+  | [] => 0
+  | nd :: g => nodeVal A a nd + graphVal A a g
+
+/-- `lower_bound` lookup after `lower_bound` insertion/accumulation: the new rule is seen at its index only -/
+theorem lookup_mergeRule (nr : TRule) (j : Nat) : ∀ (rs : List TRule),
+    valOf (lookup j (mergeRule nr rs)) = valOf (lookup j rs) + (if j = nr.idx then nr.value else 0)
+  | [] => by
+    simp only [mergeRule, lookup]
+    by_cases h1 : nr.idx < j
+    · have : j ≠ nr.idx := by omega
+      simp [h1, this, valOf]
+    · by_cases h2 : nr.idx = j
+      · simp [h2, valOf]
+      · have : j ≠ nr.idx := fun e => h2 e.symm
+        simp [h1, h2, this, valOf]
+  | r :: rs => by
+    simp only [mergeRule]
+    by_cases c1 : r.idx < nr.idx
+    · simp only [c1, if_true, lookup]
+      by_cases h1 : r.idx < j
+      · simp only [h1, if_true]; exact lookup_mergeRule nr j rs
+      · by_cases h2 : r.idx = j
+        · have : j ≠ nr.idx := by omega
+          simp [h2, this]
+        · have : j ≠ nr.idx := by omega
+          simp [h1, h2, this]
+    · by_cases c2 : r.idx = nr.idx
+      · have c2' : (r.idx == nr.idx) = true := by simpa using c2
+        simp only [c1, if_false, c2', if_true, lookup]
+        by_cases h1 : r.idx < j
+        · have : j ≠ nr.idx := by omega
+          simp [h1, this]
+        · by_cases h2 : r.idx = j
+          · have : j = nr.idx := by omega
+            simp [h2, this, valOf]
+          · have : j ≠ nr.idx := by omega
+            simp [h1, h2, this]
+      · have c2' : (r.idx == nr.idx) = false := by simpa using c2
+        simp only [c1, if_false, c2', Bool.false_eq_true, lookup]
+        by_cases g1 : nr.idx < j
+        · have : j ≠ nr.idx := by omega
+          simp [g1, this]
+        · by_cases g2 : nr.idx = j
+          · have hj : ¬ r.idx < j := by omega
+            have hj2 : ¬ r.idx = j := by omega
+            simp [g2, hj, hj2, valOf]
+          · have : j ≠ nr.idx := fun e => g2 e.symm
+            have hj : ¬ r.idx < j := by omega
+            have hj2 : ¬ r.idx = j := by omega
+            simp [g1, g2, this, hj, hj2]
+
+theorem graphVal_addToNode (A a keys : List Nat) (nr : TRule) : ∀ (g : List TNode),
+    graphVal A a (addToNode keys nr g)
+      = graphVal A a g + (if toIndexPartial keys A a = nr.idx then nr.value else 0)
+  | [] => by
+    have h0 : graphVal A a (addToNode keys nr []) = valOf (lookup (toIndexPartial keys A a) (mergeRule nr [])) + 0 := rfl
+    rw [h0, lookup_mergeRule]
+    simp [lookup, valOf, graphVal]
+  | nd :: g => by
+    simp only [addToNode]
+    by_cases h : nd.keys = keys
+    · subst h
+      simp only [beq_self_eq_true, if_true, graphVal, nodeVal, lookup_mergeRule]; ring
+    · have h' : (nd.keys == keys) = false := by simpa using h
+      simp only [h', Bool.false_eq_true, if_false, graphVal, graphVal_addToNode A a keys nr g]; ring
+
+/-- **`tInit_represents`**: the graph `UpdateGraph` builds from ANY well-formed rule list (any order, duplicates
+    accumulated on collision, several key sets) evaluates — read with the code's own `lower_bound` lookup — to the
+    total payoff of every in-range joint action. -/
+theorem tInit_represents (A a : List Nat) (ha : Valid A a) : ∀ (rules : List Rule) (g : List TNode),
+    (∀ r ∈ rules, r.WF A) → graphVal A a (tInit A rules g) = graphVal A a g + payoffL rules a
+  | [], g, _ => by simp [tInit, payoffL, payoff]
+  | r :: rs, g, hwf => by
+    simp only [tInit]
+    rw [tInit_represents A a ha rs _ (fun r' hr' => hwf r' (List.mem_cons_of_mem _ hr')), graphVal_addToNode]
+    have hm := index_eq_iff_match A a r ha (hwf r (List.mem_cons_self ..))
+    simp only [payoffL, payoff, Rule.eval]
+    by_cases h : matchKV r.keys r.vals (asgOf a) = true
+    · simp only [hm.mpr h, h, if_true]; ring
+    · have : ¬ toIndexPartial r.keys A a = toIndexPartialPF A r.keys r.vals := fun e => h (hm.mp e)
+      simp [this, h]
+
 end AITB.VE
